@@ -39,6 +39,15 @@ def reorg_fix_expected():
                    for k in vf.load_known())
 
 
+def lcls(b):
+    """class of a behaviour: how its last ProcessBlock ended, and whether the behaviour contains a
+    reorganisation (a block was disconnected) -- reorganisations are rare among all edges and must
+    not be sampled away"""
+    last = b[-1].get("res", {}).get("why", b[-1].get("act", "?"))
+    reorg = any(e[0] == "d" for st in b for e in (st.get("ev") or []))
+    return last + ("+reorg" if reorg else "")
+
+
 def exhaustive(chk, label, **kw):
     fixed_model = dict(kw); fixed_model["fix"] = True
     r = vf.tlc("Chain", "Ledger", "mc_fixed.cfg", cfg_text=cfg(inv=INV_FIXED, **fixed_model), workers=16, timeout=1700)
@@ -57,7 +66,7 @@ def extract_edges(chk, label, limit, rng, **kw):
     vf.tlc_ok(r, "Ledger edge extraction " + label)
     chk.add_tlc(r, "edge extraction; " + label)
     behs, st = vf.behaviours(r, limit=limit, rng=rng, per_class=max(20, limit // 10),
-                             strat_key=lambda b: b[-1].get("res", {}).get("why", "?"))
+                             strat_key=lcls)
     st["label"] = label
     chk.cov.setdefault("extraction", []).append(st)
     return behs
@@ -68,7 +77,7 @@ def simulate(chk, label, num, depth, **kw):
     r = vf.tlc("Chain", "Ledger", "sim.cfg", cfg_text=cfg(extra="ACTION_CONSTRAINT EmitLast", **kw), workers=1,
                timeout=1700, simulate="num=%d" % num, depth=depth, seed_arg=vf.seed())
     vf.tlc_ok(r, "Ledger simulation " + label)
-    behs, st = vf.behaviours(r, strat_key=lambda b: b[-1].get("res", {}).get("why", "?"))
+    behs, st = vf.behaviours(r, strat_key=lcls)
     st["label"] = "simulate " + label
     chk.cov.setdefault("extraction", []).append(st)
     return behs
